@@ -5,7 +5,9 @@ import (
 	"fmt"
 	"os"
 	"path/filepath"
+	"runtime"
 	"testing"
+	"verifharness/xport"
 
 	"pgregory.net/rapid"
 
@@ -115,7 +117,10 @@ func TestC10(t *testing.T) { RunProp(t, "C10", "writefaults", genWFaultCase, che
 
 func TestC09(t *testing.T) { RunProp(t, "C09", "afterclose", genCloseCase, checkC09) }
 
-func TestC20(t *testing.T) { RunProp(t, "C20", "pool", genPoolCase, checkC20) }
+func TestC20(t *testing.T) {
+	defer runtime.GOMAXPROCS(runtime.GOMAXPROCS(1)) // sequential hand-over: one P keeps sync.Pool behaviour reproducible
+	RunProp(t, "C20", "pool", genPoolCase, checkC20)
+}
 
 func TestC19(t *testing.T) {
 	RunProp(t, "C19", "prepared", func(rt *rapid.T) PrepCase { return genPrepCase(rt, false) }, checkC19)
@@ -199,4 +204,32 @@ func TestC01Multi(t *testing.T) {
 // every connection they fit) is judged by the C19 machinery on shared messages.
 func TestC02Prepared(t *testing.T) {
 	RunProp(t, "C02", "prepared-shared", func(rt *rapid.T) PrepCase { return genPrepCase(rt, false) }, checkC19)
+}
+
+// C02 over several connections of one process whose write programs are
+// interleaved call by call and may be cut by transport faults (the flate
+// writers come from process-wide pools): every connection's wire must still
+// hold exactly its own well-formed messages.  Same scenario as C20.
+func TestC02Multi(t *testing.T) {
+	// one P: the process-wide sync.Pools of flate writers then behave the same
+	// way in every run (no per-P caches to miss)
+	defer runtime.GOMAXPROCS(runtime.GOMAXPROCS(1))
+	RunProp(t, "C02", "interleaved-writers", func(rt *rapid.T) PoolCase {
+		c := genPoolCase(rt)
+		if rapid.Bool().Draw(rt, "flate_sharing_shape") && len(c.Conns) >= 3 {
+			// connection 0 fails in the middle of a compressed message and runs
+			// to its end first; the others then write compressed messages with
+			// their writers open at the same time
+			for i := range c.Conns {
+				c.Conns[i].W.Compress = true
+				c.Conns[i].CloseAt = 0
+				if i > 0 {
+					c.Conns[i].Fault = nil
+				}
+			}
+			c.Conns[0].Fault = &xport.WriteFault{K: rapid.IntRange(0, 5).Draw(rt, "fault_k0"), Kind: rapid.SampledFrom(wfaultKinds).Draw(rt, "fault_kind0")}
+			c.Order = append(make([]int, 40), c.Order...)
+		}
+		return c
+	}, checkC20)
 }
